@@ -215,7 +215,7 @@ def run(ctx: Ctx) -> int:
 
     # dotted-key prefix tests include the separator (`net` must not match `net_head`)
     n_sw = 0
-    for fref in ("_link_arguments:ActionLink.apply_instantiation_links", "_link_arguments:ActionLink.reorder", "_link_arguments:ActionLink.instantiation_order", "_link_arguments:is_nested_instantiation_link", "_link_arguments:ActionLink.set_target_value"):
+    for fref in ("_link_arguments:ActionLink.apply_instantiation_links", "_link_arguments:ActionLink.reorder", "_link_arguments:ActionLink.instantiation_order", "_link_arguments:is_nested_instantiation_link", "_link_arguments:ActionLink.set_target_value", "_typehints:ActionTypeHint.discard_init_args_on_class_path_change"):
         fn_ = ctx.func(fref)
         for c in calls_in(fn_):
             if call_leaf(c) == "startswith" and isinstance(c.func, ast.Attribute) and c.args:
